@@ -226,6 +226,7 @@ pub fn run_c07(a: &Args) {
     st.distinct_nontrivial = run.nontrivial.len() as u64;
     st.rule = "sessions on the real blocking and tokio Framed with the outgoing bytes captured per read(): every TINY (sub-type, reqi) value, every kind between two keep-alives, all short histories over a 12-frame alphabet; non-trivial = >= 2 frames and a read that is not frame-aligned".into();
     st.sample("session C 0 f:030000:K:0 f:030100:O:1 f:030003:O:2 | D01030000010301 D0001030003 Z -> W01030000 P0 P1 P2 DC".into());
+    { let c1 = crate::conv::sync_conversations("C07", a, &mut rng, "ka", &mut st, &mut out); let c2 = crate::conv::async_conversations("C07", a, &mut rng, &mut st, &mut out); st.distinct_nontrivial += (c1.distinct.len() + c2.distinct.len()) as u64; }
     out.finish(&st);
 }
 
@@ -288,6 +289,7 @@ pub fn run_c09(a: &Args) {
     st.distinct_nontrivial = run.sessions / 2;
     st.rule = "sessions on the real blocking and tokio Framed: Ver frames with every insimver 0..255, verification on and off, alone and inside histories of other kinds; every other kind with verification on; distinct sessions counted (each run on both connections)".into();
     st.sample("session U 1 f:<ver insimver=8>:V8:0 | D.. Z -> BV8 DC".into());
+    { let c1 = crate::conv::sync_conversations("C09", a, &mut rng, "ver", &mut st, &mut out); st.distinct_nontrivial += c1.distinct.len() as u64; }
     out.finish(&st);
 }
 
@@ -385,6 +387,7 @@ pub fn run_c06(a: &Args) {
     }
     st.rule = "Framed::write on the real blocking and tokio connections over a scripted transport that accepts k bytes per call / reports not-ready (Interrupted for blocking, Pending for tokio) / fails: all acceptance patterns for short frames, every kind one byte per call, random sequences of 1..6 packets; non-trivial = a call accepting < 4 bytes occurs".into();
     st.sample("A C 2 | p a0 p a0 a1  -> transport receives 01030000".into());
+    { let mut r2 = Rng::new(a.seed ^ 0xC06); let c1 = crate::conv::sync_conversations("C06", a, &mut r2, "ka", &mut st, &mut out); let c2 = crate::conv::async_conversations("C06", a, &mut r2, &mut st, &mut out); st.distinct_nontrivial += (c1.distinct.len() + c2.distinct.len()) as u64; }
     out.finish(&st);
 }
 
